@@ -25,6 +25,16 @@ CLAIMED = {
              "apply is not asserted.",
         ref="§4 C03", technique="symbolic execution of the real matcher with z3 (CrossHair), differential against ISO echo rules",
     ),
+    "C04": dict(
+        text="Bounded symbolic execution (CrossHair + z3) of the real UDSClient.request_unsafe coroutine against a scripted transport: every "
+             "event script of the stated length over the 9-letter fault/reply alphabet, the client's and the per-request retry budgets symbolic; "
+             "on every path the number of transmissions and reconnects, the outcome class and the returned reply equal those of a reference state "
+             "machine, and loop time stays within the back-off bound; long pending runs, slow pendings, endless pendings and pending-then-silence "
+             "are separate obligations with symbolic run lengths.",
+        note="Trusted: CrossHair, z3, spec/client_model.py. Transport is a stub (one event per call), asyncio.sleep advances a virtual clock, reply bytes "
+             "are concrete per letter. One recorded known finding (connection loss while polling after responsePending) is excluded by region.",
+        ref="§4 C04", technique="symbolic execution of the real retry/pending state machine with z3 (CrossHair) against a reference model",
+    ),
     "C02": dict(
         text="Bounded symbolic execution (CrossHair + z3) of the real UDSResponse.parse_dynamic / from_pdu / pdu code: for every first byte "
              "0x00-0xFF and every total length in the stated bound, with all remaining bytes symbolic, every path is explored and the "
